@@ -9,7 +9,7 @@ sys.path.insert(0, HERE)
 import vlib  # noqa: E402
 
 
-SIMPLE = [('range', 'c++17'), ('print', 'c++17'), ('coro', 'c++20'), ('spelling', 'c++17')]
+SIMPLE = [('range', 'c++17'), ('print', 'c++17'), ('coro', 'c++20'), ('spelling', 'c++17'), ('ring', 'c++17')]
 
 
 def main():
